@@ -121,7 +121,23 @@ func (s *Sink) Bytes() []byte {
 
 // LibGoroutines counts goroutines that have a frame of the given package (after letting
 // finished goroutines exit) and returns the names of their library frames.
-func LibGoroutines(marker string) (int, []string) {
+func LibGoroutines(marker string) (int, []string) { return LibGoroutinesAbove(marker, 0) }
+
+// LibBaseline is the number of library goroutines alive now (left behind by earlier
+// scenarios that hung); LibGoroutinesAbove reports only what exceeds it.
+func LibBaseline(marker string) int {
+	n := 0
+	buf := make([]byte, 1<<22)
+	buf = buf[:runtime.Stack(buf, true)]
+	for _, g := range strings.Split(string(buf), "\n\n") {
+		if strings.Contains(g, marker) && !strings.Contains(g, "verif/harness") {
+			n++
+		}
+	}
+	return n
+}
+
+func LibGoroutinesAbove(marker string, base int) (int, []string) {
 	var frames []string
 	n := 0
 	for try := 0; try < 20; try++ {
@@ -144,12 +160,12 @@ func LibGoroutines(marker string) (int, []string) {
 				}
 			}
 		}
-		if n == 0 {
+		if n <= base {
 			return 0, nil
 		}
 		time.Sleep(10 * time.Millisecond)
 	}
-	return n, frames
+	return n - base, frames
 }
 
 func ErrClass(err error, closed error) string {
